@@ -10,6 +10,9 @@ def run(prop):
         return engine_family.check(prop)
     if prop in ("C16",):
         return library_family.main(prop)
+    if prop == "C19":
+        import cases_family
+        return cases_family.c19()
     if prop == "C12":
         import c12
         return c12.check()
@@ -21,6 +24,12 @@ def run(prop):
 def replay(kind, path):
     if kind == "lib-history":
         return library_family.replay(path)
+    if kind == "case":
+        import cases_family
+        return cases_family.replay(path)
+    if kind == "grb-cut":
+        import c12
+        return c12.replay_cut(path)
     if kind == "grb-writer":
         import c12
         return c12.replay_writer(path)
